@@ -11,7 +11,7 @@ RULE = ('all integer dtypes x lengths (valid, zero, negative, not whole bytes fo
         'token string, property assignment (target must stay unchanged), pack, Dtype.build and Array element assignment. non-trivial = a rejected case; distinct by arguments')
 ASSUMPTIONS = ['CreationError is ValueError in this package (exceptions.py)']
 INTS = ['uint', 'int', 'uintbe', 'intbe', 'uintle', 'intle', 'uintne', 'intne']
-ROUTES6 = ['kw_len', 'kw_name', 'setattr', 'token', 'build', 'pack', 'array']
+ROUTES6 = ['kw_len', 'kw_name', 'setattr', 'setattr_plain', 'token', 'build', 'pack', 'array', 'array_slice']
 
 def gen_cases(rng, tier):
     N = 600 if tier == 'quick' else 10000
@@ -39,12 +39,26 @@ def gen_cases(rng, tier):
         stated = nd + rng.choice([0, 0, 1, -1, 3]) if k == 'bytes' else w * nd + rng.choice([0, 0, 0, w, -w, 1, 2])
         yield {'op': 'token_len', 'kind': k, 'val': val, 'stated': stated, 'bad_digit': bad_digit, 'route': rng.choice(['token', 'pack', 'build', 'kw_len']), 'cls': rng.choice(CLASSES)}
 
-def kind(c): return c['op'] + ':' + c.get('route', '')
+    # a stated length of zero with a non-empty value (the only stated length for which `if length:` and `if length is not None:` differ)
+    for k, vals in (('hex', ['a', 'ff']), ('oct', ['7']), ('bin', ['1', '01']), ('bytes', ['a']), ('bits', ['1'])):
+        for val in vals:
+            for route in ('token', 'pack', 'build', 'kw_len'):
+                yield {'op': 'token_len', 'kind': k, 'val': val, 'stated': 0, 'bad_digit': False, 'route': route, 'cls': rng.choice(CLASSES)}
+    # offset / length windows beyond the supplied bytes, bytearray, bitarray, BytesIO, file name or file handle (cases, runner and oracle of C17)
+    import random as _random
+    from props import c17
+    for c in c17.gen_cases(_random.Random(rng.randrange(1 << 30)), tier):
+        if c['op'] == 'window': yield c
+
+def kind(c): return c['op'] + ':' + c.get('route', c.get('via', ''))
 
 def run_impl(c):
     import bitstring
     from bitstring import Bits, BitArray, Dtype, pack, Array
     C = cls_of(c['cls']); op = c['op']
+    if op == 'window':
+        from props import c17
+        return c17.run_impl(c)
     def mk(name, n, value, route):
         tok = f'{name}:{n}'
         if route == 'kw_len': return C(**{name: value, 'length': n}).bin
@@ -59,6 +73,21 @@ def run_impl(c):
             except Exception as e:
                 return ['raised', exn_name(e), a.bin == before]
             return a.bin
+        if route == 'setattr_plain':          # a.uintle = v: the length is the current length of the target
+            if n <= 0: return mk(name, n, value, 'setattr')
+            a = BitArray(bin='10' * n)[:n]
+            before = a.bin
+            try: setattr(a, name, value)
+            except Exception as e:
+                return ['raised', exn_name(e), a.bin == before]
+            return a.bin
+        if route == 'array_slice':           # a[::2] = [fits, value]: nothing may change when value does not fit
+            a = Array(f'{name}{n}', [0, 0, 0, 0])
+            before = (a.data.bin, a.tolist())
+            try: a[::2] = [1 if not name.startswith('int') else -1, value]
+            except Exception as e:
+                return ['raised', exn_name(e), (a.data.bin, a.tolist()) == before]
+            return a.data.bin[2 * n:3 * n]
         if route == 'array':
             a = Array(f'{name}{n}', [0, 0])
             before = (a.data.bin, a.tolist())
@@ -103,6 +132,9 @@ def allowed_len(name, n):
 
 def oracle(c, obs):
     op = c['op']
+    if op == 'window':
+        from props import c17
+        return c17.oracle(c, obs)
     rejected = (obs[0] == 'err' and obs[1] == 'ValueError') or (obs[0] == 'ok' and isinstance(obs[1], list) and obs[1][0] == 'raised' and obs[1][1] == 'ValueError')
     if obs[0] == 'ok' and isinstance(obs[1], list) and obs[1][0] == 'raised':
         if not obs[1][2]: return f"{c}: the rejected assignment changed the target"
@@ -112,7 +144,7 @@ def oracle(c, obs):
         signed = name.startswith('int')
         ok_len = allowed_len(name, n)
         in_range = ok_len and ((-(1 << (n - 1)) <= v < (1 << (n - 1))) if signed else (0 <= v < (1 << n)))
-        if c['route'] in ('kw_name', 'token', 'pack', 'setattr', 'array') and n < 0:
+        if c['route'] in ('kw_name', 'token', 'pack', 'setattr', 'setattr_plain', 'array', 'array_slice') and n < 0:
             return None if obs[0] == 'err' or rejected else f"{c} accepted a negative length"
         if in_range:
             if rejected or obs[0] != 'ok': return f"in-range {name}:{n}={v} via {c['route']} was rejected: {obs}"
@@ -147,6 +179,9 @@ def nontrivial(c, obs): return obs[0] == 'err' or (isinstance(obs[1], list) and 
 def classify(c, obs): return None
 
 def coq_check(c, obs):
+    if c['op'] == 'window':
+        from props import c17
+        return c17.coq_check(c, obs)
     if c['op'] == 'int' and c['route'] in ('kw_len', 'build', 'pack', 'token', 'kw_name') and c['n'] >= 0:
         name, n, v = c['name'], c['n'], c['v']
         signed = cbool(name.startswith('int'))
